@@ -1,12 +1,22 @@
+let p_mfpt ((((hyp, eqn), m), e), g) =
+  ps "["; p_bool hyp; ps ","; p_bool eqn; ps ","; p_mat p_q m; ps ","; p_mat p_q e; ps ","; p_q g; ps "]"
 let dispatch = function
   | "findwalks" -> let a = next_mat next_z in
                    p_opt (p_triple (p_list (p_mat p_z)) p_z (p_list p_z)) (run_findwalks a)
+  | "findwalksx" -> let a = next_mat next_z in
+                    p_opt (fun (((w, t), l), (ex, bd)) ->
+                             ps "["; p_list (p_mat p_z) w; ps ","; p_z t; ps ","; p_list p_z l; ps ","; p_bool ex; ps ","; p_bool bd; ps "]")
+                      (run_findwalks_x a)
   | "walkcount" -> let a = next_mat next_z in let q = next_nat () in p_mat p_nat (run_walkcount a q)
   | "mfpt" -> let a = next_mat next_q in let w = next_list next_q in let z = next_mat next_q in
-              let ((((hyp, eqn), m), e), g) = run_mfpt a w z in
-              ps "["; p_bool hyp; ps ","; p_bool eqn; ps ","; p_mat p_q m; ps ","; p_mat p_q e; ps ","; p_q g; ps "]"
-  | "pagerank" -> let a = next_mat next_q in let d = next_q () in let r = next_list next_q in
-                  p_triple p_bool p_bool (p_list p_q) (run_pagerank a d r)
+              p_mfpt (run_mfpt a w z)
+  | "mfptc" -> let a = next_mat next_q in p_opt p_mfpt (run_mfpt_c a)
+  | "mfptsel" -> let tol = next_q () in let aux = next_list next_q in
+                 p_pair p_nat p_nat (run_mfpt_select tol aux)
+  | "pagerankc" -> let a = next_mat next_q in let d = next_q () in let f = next_opt (fun () -> next_list next_q) in
+                   p_opt (fun ((((hyp, eqn), r), s), dg) ->
+                            ps "["; p_bool hyp; ps ","; p_bool eqn; ps ","; p_list p_q r; ps ","; p_q s; ps ","; p_q dg; ps "]")
+                     (run_pagerank_c a d f)
   | "subgraph" -> let a = next_mat next_q in let v = next_mat next_q in let lam = next_list next_q in
                   let m = next_nat () in
                   p_triple p_bool (p_list p_q) (p_list p_q) (run_subgraph a v lam m)
